@@ -353,6 +353,7 @@ func constructWithValue(sh *engine.Shape) (*constructed, any, error) {
 		}
 		inner := refmodel.Expand(sh.Seed, "c06-inner", sh.Size)
 		var els *encrypted_leaseset.EncryptedLeaseSet
+		var err error
 		if sh.Seed%3 == 0 {
 			// the other constructor: from a (blinded) Destination whose signing key is the blinded key
 			bid := refmodel.NewIdentity(sh.IdentSeed, sh.Sig, refmodel.EncX25519, "key", 0)
